@@ -255,8 +255,6 @@ class Config:
                 if tok[c].get('astParent') != tid:
                     self.bad('ast-parent', 'token %s is %s of %s but its astParent is %r' % (
                         self.describe(tok[c]), a, self.describe(t), tok[c].get('astParent')))
-            if t.get('astOperand2') is not None and t.get('astOperand1') is None:
-                self.bad('ast-parent', 'token %s has astOperand2 but no astOperand1' % self.describe(t))
         for t in self.tokens:
             p = t.get('astParent')
             if p is None or p in NULL_IDS or p not in tok:
